@@ -34,6 +34,11 @@ type tPlan struct {
 	T       int      `json:"t"`
 	Batches []tBatch `json:"batches"`
 	Tape    []int    `json:"tape"`
+	// Script, if set, replaces the tape: an explicit board order. Entries: "P<b>" propose batch b, "A<b>:<i>" participant
+	// i answers batch b. After every entry all nodes poll everything, except the nodes listed in Lagging, which poll
+	// only when they have to act themselves and at the very end.
+	Script  []string `json:"script,omitempty"`
+	Lagging []int    `json:"lagging,omitempty"`
 }
 
 // nodeModel is the reference counter for one node.
@@ -277,6 +282,46 @@ func runSignTape(fx *world.Fixture, p tPlan, root string, stepCheck bool) *tObs 
 			m := genuine[fmt.Sprintf("%d/%d", a.b, a.i)]
 			w.Board.Inject(storage.Message{DkgRoundID: m.DkgRoundID, Event: m.Event, Data: m.Data, Signature: m.Signature, SenderAddr: m.SenderAddr, RecipientAddr: m.RecipientAddr})
 			hist("re-post partial b%d of %d", a.b, a.i)
+		}
+	}
+	if len(p.Script) > 0 {
+		pollEager := func(force int) {
+			for j := range w.Nodes {
+				if inSet(p.Lagging, j) && j != force {
+					continue
+				}
+				for w.Lag(j) > 0 {
+					pollOne(j)
+					if obs.Viol != nil {
+						return
+					}
+				}
+			}
+		}
+		for _, step := range p.Script {
+			var b, i int
+			switch {
+			case strings.HasPrefix(step, "P"):
+				fmt.Sscanf(step, "P%d", &b)
+				pollEager(p.Batches[b].Proposer)
+				if w.StateOf(p.Batches[b].Proposer, fx.Round) != "stage_signing_idle" {
+					obs.Err = fmt.Errorf("script: proposer of batch %d is not idle at %q", b, step)
+					return obs
+				}
+				do(act{"propose", p.Batches[b].Proposer, b})
+			case strings.HasPrefix(step, "A"):
+				fmt.Sscanf(step, "A%d:%d", &b, &i)
+				pollEager(i)
+				if pendingSigningOp(w, i, obs.BatchIDs[b]) == nil {
+					obs.Err = fmt.Errorf("script: participant %d has no pending operation for batch %d at %q", i, b, step)
+					return obs
+				}
+				do(act{"answer", i, b})
+			}
+			if obs.Err != nil || obs.Viol != nil {
+				return obs
+			}
+			pollEager(-1)
 		}
 	}
 	for _, c := range p.Tape {
